@@ -18,7 +18,7 @@
 EXTENDS Store, TLC, Json, IOUtils
 
 Trace == ndJsonDeserialize(IOEnv.TRACE)
-Ws == 1..4
+Ws == 1..5
 VARIABLES l,
           buf,     \* per worker: the write buffer, a set of [k, v] (v = 0: delete)
           snap,    \* per worker: snapshot = newest finished commit when Begin returned
